@@ -248,6 +248,86 @@ func rtpPacket(ssrc uint32, seq uint16) ([]byte, *rtp.Header, []byte) {
 	return b, h, payload
 }
 
+// consumed keeps the checksums alive so that the reads below are not optimised away.
+var consumed atomic.Uint64
+
+// consumeRTP is the downstream RTP writer: it reads the whole header (incl. extensions) and every payload byte.
+func consumeRTP(h *rtp.Header, p []byte, a interceptor.Attributes) (int, error) {
+	var sum uint64
+	if h != nil {
+		if raw, err := h.Marshal(); err == nil {
+			for _, b := range raw {
+				sum = sum*31 + uint64(b)
+			}
+		}
+	}
+	for _, b := range p {
+		sum = sum*31 + uint64(b)
+	}
+	consumed.Add(sum | 1)
+
+	return len(p), nil
+}
+
+// consumeRTCP is the downstream RTCP writer: marshalling reads every field of every packet.
+func consumeRTCP(pkts []rtcp.Packet, _ interceptor.Attributes) (int, error) {
+	var sum uint64
+	for _, p := range pkts {
+		if p == nil {
+			continue
+		}
+		if raw, err := p.Marshal(); err == nil {
+			for _, b := range raw {
+				sum = sum*31 + uint64(b)
+			}
+		}
+	}
+	consumed.Add(sum | 1)
+
+	return 0, nil
+}
+
+// reuse is what one writer goroutine owns: ONE header object and ONE payload buffer for all its packets.
+type reuse struct {
+	h rtp.Header
+	p [8]byte
+}
+
+// fill prepares the next packet in place.
+func (r *reuse) fill(ssrc uint32, seq uint16) (*rtp.Header, []byte) {
+	r.h = rtp.Header{Version: 2, PayloadType: 96, SequenceNumber: seq, Timestamp: uint32(seq) * 3000, SSRC: ssrc}
+	ext, _ := (&rtp.TransportCCExtension{TransportSequence: seq}).Marshal()
+	_ = r.h.SetExtension(twccID, ext)
+	for i := range r.p {
+		r.p[i] = byte(seq) + byte(i)
+	}
+
+	return &r.h, r.p[:]
+}
+
+// scribble takes header and payload back right after Write has returned.
+func (r *reuse) scribble() {
+	r.h.SequenceNumber, r.h.Timestamp, r.h.Marker = ^r.h.SequenceNumber, ^r.h.Timestamp, !r.h.Marker
+	for _, id := range r.h.GetExtensionIDs() {
+		if e := r.h.GetExtension(id); len(e) > 0 {
+			e[0] ^= 0xFF // the extension bytes belong to the caller too
+		}
+	}
+	for i := range r.p {
+		r.p[i] ^= 0xFF
+	}
+}
+
+// scribbleBuf takes a read buffer back right after Read has returned.
+func scribbleBuf(b []byte, n int) {
+	if n < 0 || n > len(b) {
+		n = len(b)
+	}
+	for i := 0; i < n; i++ {
+		b[i] ^= 0xFF
+	}
+}
+
 func stress(t target, d time.Duration, nW, nR, nK int) error {
 	icpt, observer, err := t.mk()
 	if err != nil {
@@ -255,8 +335,12 @@ func stress(t target, d time.Duration, nW, nR, nK int) error {
 	}
 	var stop atomic.Bool
 	var wg sync.WaitGroup
-	sink := interceptor.RTPWriterFunc(func(*rtp.Header, []byte, interceptor.Attributes) (int, error) { return 0, nil })
-	rtcpSink := interceptor.RTCPWriterFunc(func([]rtcp.Packet, interceptor.Attributes) (int, error) { return 0, nil })
+	// The downstream writers behave like a transport: they READ every byte they are handed (so the race detector
+	// sees memory that an interceptor passes on after its caller has taken it back). The upstream writers and
+	// readers behave like a frugal application: one header object, one payload buffer, one read buffer per
+	// goroutine, overwritten as soon as the call returns - which the interfaces permit.
+	sink := interceptor.RTPWriterFunc(consumeRTP)
+	rtcpSink := interceptor.RTCPWriterFunc(consumeRTCP)
 	_ = icpt.BindRTCPWriter(rtcpSink)
 	var rtcpRound, dbg atomic.Uint32
 	seqs := make([]atomic.Uint32, 4)
@@ -288,9 +372,11 @@ func stress(t target, d time.Duration, nW, nR, nK int) error {
 		go func(w int) { // RTP writers: same stream and different streams in parallel
 			defer wg.Done()
 			s := w % 2
+			var ru reuse
 			for !stop.Load() {
-				_, h, p := rtpPacket(uint32(s+1), uint16(seqs[s].Add(1)))
+				h, p := ru.fill(uint32(s+1), uint16(seqs[s].Add(1)))
 				_, _ = writers[s].Write(h, p, nil)
+				ru.scribble()
 			}
 		}(w)
 	}
@@ -300,7 +386,8 @@ func stress(t target, d time.Duration, nW, nR, nK int) error {
 			defer wg.Done()
 			buf := make([]byte, 1500)
 			for !stop.Load() {
-				_, _, _ = readers[r%2].Read(buf, nil)
+				n, _, _ := readers[r%2].Read(buf, nil)
+				scribbleBuf(buf, n)
 			}
 		}(r)
 	}
@@ -310,7 +397,8 @@ func stress(t target, d time.Duration, nW, nR, nK int) error {
 			defer wg.Done()
 			buf := make([]byte, 1500)
 			for !stop.Load() {
-				_, attr, err := rtcpReader.Read(buf, nil)
+				n, attr, err := rtcpReader.Read(buf, nil)
+				scribbleBuf(buf, n)
 				if os.Getenv("C10RACE_DEBUG") != "" && dbg.Add(1) < 4 {
 					fmt.Fprintf(os.Stderr, "debug rtcp read: attr=%v err=%v\n", attr, err)
 				}
@@ -331,11 +419,14 @@ func stress(t target, d time.Duration, nW, nR, nK int) error {
 	wg.Add(1)
 	go func() { // lifecycle: Bind / Unbind racing with traffic
 		defer wg.Done()
+		var lifeReuse reuse
+		lifeBuf := make([]byte, 1500)
 		for n := uint32(0); !stop.Load(); n++ {
 			ssrc := 3 + n%2
 			w := icpt.BindLocalStream(streamInfo(ssrc), sink)
-			_, h, p := rtpPacket(ssrc, uint16(n))
+			h, p := lifeReuse.fill(ssrc, uint16(n))
 			_, _ = w.Write(h, p, nil)
+			lifeReuse.scribble()
 			icpt.UnbindLocalStream(streamInfo(ssrc))
 			r := icpt.BindRemoteStream(streamInfo(ssrc), interceptor.RTPReaderFunc(
 				func(b []byte, a interceptor.Attributes) (int, interceptor.Attributes, error) {
@@ -343,7 +434,8 @@ func stress(t target, d time.Duration, nW, nR, nK int) error {
 
 					return copy(b, in), a, nil
 				}))
-			_, _, _ = r.Read(make([]byte, 1500), nil)
+			rn, _, _ := r.Read(lifeBuf, nil)
+			scribbleBuf(lifeBuf, rn)
 			icpt.UnbindRemoteStream(streamInfo(ssrc))
 			time.Sleep(200 * time.Microsecond)
 		}
